@@ -44,7 +44,7 @@ import "github.com/biogo/biogo/alphabet"
 // AppendEach extends every row by the letters supplied for it; shorter runs are padded with the gap letter.
 //@ func (*Seq).AppendEach
 //@   property C07
-//@   requires wf(s) && len(s.Seq[0]) > 0 && s.Alpha != nil
+//@   requires wf(s) && s.Alpha != nil
 //@   ensures [rejected] result != nil ==> s.Seq == old(s.Seq)
 //@   ensures [old]      forall c int :: 0 <= c && c < old(len(s.Seq)) ==> s.Seq[c] == old(s.Seq[c])
 //@   ensures [old-cells] forall c int, r int :: 0 <= c && c < old(len(s.Seq)) && 0 <= r && r < len(old(s.Seq[c])) ==> old(s.Seq[c])[r] == old(s.Seq[c][r])
@@ -99,7 +99,7 @@ import "github.com/biogo/biogo/alphabet"
 
 //@ func (*QSeq).AppendEach
 //@   property C07
-//@   requires qwf(s) && len(s.Seq[0]) > 0 && s.Alpha != nil && disjoint(a, s.Seq)
+//@   requires qwf(s) && s.Alpha != nil && disjoint(a, s.Seq)
 //@   ensures [rejected] result != nil ==> s.Seq == old(s.Seq)
 //@   ensures [old]      forall c int :: 0 <= c && c < old(len(s.Seq)) ==> s.Seq[c] == old(s.Seq[c])
 //@   ensures [old-cells] forall c int, r int :: 0 <= c && c < old(len(s.Seq)) && 0 <= r && r < len(old(s.Seq[c])) ==> old(s.Seq[c])[r] == old(s.Seq[c][r])
